@@ -317,7 +317,6 @@ func runC17(sc drv.Scenario) drv.Result {
 		c := &config.Dcp{}
 		c.Dcp.Group.Membership.MemberNumber = p.FileMember
 		c.Dcp.Group.Membership.TotalMembers = p.FileTotal
-		c.ApplyDefaults()
 		wantM, wantT := p.FileMember, p.FileTotal
 		if wantM == 0 {
 			wantM = 1
@@ -330,6 +329,18 @@ func runC17(sc drv.Scenario) drv.Result {
 		}
 		if p.EnvTotal != "" {
 			wantT, _ = strconv.Atoi(p.EnvTotal)
+		}
+		// the numbering in effect (file values overridden by the environment) decides whether the configuration is a
+		// valid one; a valid one must come out of ApplyDefaults, whatever the file values alone look like
+		if pv := func() (pv any) {
+			defer func() { pv = recover() }()
+			c.ApplyDefaults()
+			return nil
+		}(); pv != nil {
+			if wantM <= wantT {
+				return viol("env-precedence", fmt.Sprintf("file member=%d total=%d env member=%q total=%q is the valid numbering %d/%d, yet ApplyDefaults panicked: %v", p.FileMember, p.FileTotal, p.EnvMember, p.EnvTotal, wantM, wantT, pv))
+			}
+			return drv.Result{Verdict: drv.Inconclusive, Detail: fmt.Sprintf("ApplyDefaults rejected the numbering %d/%d: %v", wantM, wantT, pv)}
 		}
 		res.Checks++
 		g := c.Dcp.Group.Membership
@@ -383,7 +394,15 @@ func c17GenSize(rng *rand.Rand) (any, *big.Int, bool) {
 		return n, big.NewInt(int64(n)), false
 	case 2:
 		n := rng.Int63n(1 << 40)
-		return strconv.FormatInt(n, 10), big.NewInt(n), false
+		if rng.Intn(4) == 0 {
+			n = rng.Int63n(100000)
+		}
+		ds := strconv.FormatInt(n, 10)
+		if rng.Intn(3) == 0 {
+			// a plain integer stays one with zeros in front of it
+			ds = strings.Repeat("0", 1+rng.Intn(4)) + ds
+		}
+		return ds, big.NewInt(n), false
 	}
 	k := 1 + rng.Intn(3)
 	unit := []string{"kb", "mb", "gb"}[k-1]
